@@ -22,7 +22,7 @@ BASE=$( (go build ./... >/dev/null 2>&1 && go test -vet=off -count=1 ./... >/dev
 cp $M/demo_test.go $DEMODIR/zz_demo_test.go
 MUT=$( (go test -vet=off -count=1 -run "$RUN" ./$DEMODIR >/dev/null 2>&1 && echo pass) || echo fail)
 rm -f $DEMODIR/zz_demo_test.go
-cd /verif
+cd ${VERIF_SNAP:-/verif}
 OUT=$(VERIF_REPO=$WT VERIF_EVIDENCE_DIR=/tmp/wt/evidence-$NAME timeout 1500 ./check $ID 2>/dev/null)
 RC=$?
 echo "$NAME: baseline=$BASE demo(clean)=$CLEAN demo(mutant)=$MUT check_exit=$RC $(echo "$OUT" | grep -c '^VIOLATION') violation lines; first: $(echo "$OUT" | grep -A1 '^VIOLATION' | sed -n 2p | cut -c1-220)"
